@@ -87,13 +87,24 @@ def ptFunc   : Nat := 64
 def ptJSON   : Nat := 128
 def ptAny    : Nat := 256
 
+/-- One regular-expression match as the engine reports it (byte offsets). -/
+structure MatchRec where
+  text : String
+  start : Nat
+  stop : Nat
+  groups : List String
+  deriving Repr, Inhabited, DecidableEq
+
+/-- the engine's graph on the subject strings a regex literal may meet -/
+abbrev RxTable := List (String × List MatchRec)
+
 /-- The optimised syntax tree returned by `jparse.Parse` (exported node types). -/
 inductive Node (N : Type) : Type
   | str (s : String)
   | num (x : N)
   | bool (b : Bool)
   | null
-  | regex (pat : String)
+  | regex (pat : String) (tbl : RxTable)
   | var (name : String)
   | name (v : String)
   | path (steps : List (Node N)) (keep : Bool)
@@ -122,14 +133,6 @@ inductive Node (N : Type) : Type
   | apply (l r : Node N)
   deriving Inhabited
 
-/-- One regular-expression match as the engine reports it (byte offsets). -/
-structure MatchRec where
-  text : String
-  start : Nat
-  stop : Nat
-  groups : List String
-  deriving Repr, Inhabited, DecidableEq
-
 /-- JSONata values. Function values are constructors of `Val` (no separate
     callable type, which keeps the nested inductive simple). -/
 inductive Val (N : Type) : Type
@@ -147,14 +150,14 @@ inductive Val (N : Type) : Type
   | partialFn (f : Val N) (args : List (Node N)) (env : Nat) (ctx : Option (Val N))
   | transformFn (pattern updates : Node N) (deletes : Option (Node N)) (env : Nat)
   | chain (f g : Val N)
-  | regexFn (pat : String)
+  | regexFn (pat : String) (tbl : RxTable)
   /-- the `next` member of a match object: remaining matches -/
   | matchNext (rest : List MatchRec)
   deriving Inhabited
 
 namespace Val
 def isFn : Val N → Bool
-  | .builtin _ | .lambda .. | .partialFn .. | .transformFn .. | .chain .. | .regexFn _
+  | .builtin _ | .lambda .. | .partialFn .. | .transformFn .. | .chain .. | .regexFn ..
   | .matchNext _ => true
   | _ => false
 
